@@ -173,6 +173,18 @@ def run_shard(shard):
         for i, ch in enumerate(gen_xonsh.HOSTILE):
             for tmpl in ("{}", "x = 1 {}", "x = 'a' {}\n", "{} x\n", "f(a, {} b)\n", "if a:\n    {}\n", "$(ls {})\n", "x = [1, {}\n 2]\n", "f'{{a}} {}'\n", "'''a\n{}\nb'''\n"):
                 go(tmpl.format(ch), None)
+    elif kind == "fstrings":
+        from . import c10
+
+        for s in c10.FIXED:
+            go(s, None)
+        for _ in range(n):
+            s = c10.gen_case(rnd)
+            go(s)
+            go(gen_xonsh.char_edits(rnd, s, rnd.randint(1, 2)))
+            if rnd.random() < 0.3:
+                for p in gen_xonsh.prefixes(rnd, s, 1):
+                    go(p)
     elif kind == "nesting":
         for d in shard["depths"]:
             for o, c in ("()", "[]", "{}"):
@@ -237,6 +249,8 @@ def plan(tier, seed):
     depths = [1, 2, 5, 10, 20, 24, 26, 28, 33, 40, 60, 100] if q else [1, 2, 3, 5, 8, 10, 15, 20, 22, 24, 25, 26, 27, 28, 30, 33, 36, 40, 50, 60, 80, 100, 150, 200, 400, 1000, 3000, 10000]
     for i in range(0, len(depths), 3):
         shards.append({"kind": "nesting", "seed": seed, "idx": i, "depths": depths[i : i + 3]})
+    for i in range(4 if q else 32):
+        shards.append({"kind": "fstrings", "seed": seed, "idx": i, "n": 250 if q else 1500})
     nshard = 16 if q else 96
     for i in range(nshard):
         shards.append({"kind": "soup", "seed": seed, "idx": i, "n": 500 if q else 3000})
